@@ -195,7 +195,14 @@ def build(ctx, tier="quick", judge=True):
     s.eps(e, fin)
     for kind, ws in (("act:MODIFY", [("KW", "MODIFY"), ("KW", "COLUMN")]), ("act:MODIFYO", [("KW", "MODIFY")]),
                      ("act:ALTERCOL", [("KW", "ALTER"), ("KW", "COLUMN")])):
-        e = s.words(home, kind, ws + [(C["b"], "col1"), (C["typ2"], "type")])
+        # the second, the first and the last column of the table (position 0 is not `no position`)
+        for col in (C["b"], C["a"], C["c"]):
+            e = s.words(home, kind, ws + [(col, "col1"), (C["typ2"], "type")])
+            s.eps(e, fin)
+    for col in (C["a"], C["c"]):
+        ed = s.words(home, "act:DROP", [("KW", "DROP"), ("KW", "COLUMN"), (col, "col1")])
+        s.eps(ed, fin)
+        e = s.words(home, "act:RENAME", [("KW", "RENAME"), ("KW", "COLUMN"), (col, "col1"), (lm.custom("TO", ["TO", "to", "To"], "WORD"), None), (C["d"], "to")])
         s.eps(e, fin)
     # ---- CREATE [UNIQUE] INDEX ix ON <ref> ( a [ASC|DESC] [, "B" [ASC|DESC]] )
     for uq in (False, True):
